@@ -26,8 +26,19 @@ func main() {
 	only := flag.Int("only", -1, "run only this case index")
 	verbose := flag.Bool("v", false, "verbose")
 	c19child := flag.String("c19child", "", "internal: kind:file - read a file (run under strace fault injection)")
+	c01child := flag.String("c01child", "", "internal: base64(keyprefix).base64(doc) - decode under a key prefix set in a fresh process")
+	c17child := flag.Int("c17child", 0, "internal: n goroutines make the first Gob calls of a fresh process (gob types not registered)")
 	flag.Parse()
 
+	if *c01child != "" {
+		i := strings.Index(*c01child, ".")
+		mon.C01Child((*c01child)[:i], (*c01child)[i+1:])
+		return
+	}
+	if *c17child > 0 {
+		mon.C17GobChild(*c17child)
+		return
+	}
 	if *c19child != "" {
 		i := strings.Index(*c19child, ":")
 		mon.C19Child((*c19child)[:i], (*c19child)[i+1:])
@@ -67,6 +78,9 @@ func main() {
 			fmt.Fprintln(os.Stderr, err)
 			os.Exit(2)
 		}
+	}
+	if !(*prop == "C17" && *race && *shard%4 >= 2) {
+		mon.RegisterGobTypes()
 	}
 	mon.InitAutoDict(os.Getenv("VERIF_MXJ_SRC"))
 	mon.AutoDictEvidence(c)
